@@ -29,7 +29,18 @@ def main(argv=None):
     if args.replay:
         with open(args.replay) as f:
             body = json.load(f)
-        msg = mod.replay(body["scenario"])
+        sc = body["scenario"]
+        if isinstance(sc, dict) and set(sc) == {"block"}:
+            # block-level artefact (the library raised an unanticipated exception)
+            def _t(x):
+                return tuple(_t(y) for y in x) if isinstance(x, list) else x
+            try:
+                r = mod.worker(_t(sc["block"]))
+                msg = r.violations[0]["message"] if r.violations else None
+            except Exception as e:   # noqa: BLE001
+                msg = f"{type(e).__name__}: {e}"
+        else:
+            msg = mod.replay(sc)
         if msg:
             print(f"REPRODUCED property={args.pid}: {msg}")
             print(f"VIOLATION property={args.pid} replay={args.replay}")
